@@ -26,7 +26,8 @@ EXTENDS Routing, TLC
 
 CONSTANTS Nodes,      \* data node addresses
           Mode,       \* "m": default client, "r": ReplicaOnly, "b": SendToReplicas is set
-          Slots       \* goroutines that can be inside _switchTarget at the same time
+          Slots,      \* goroutines that can be inside _switchTarget at the same time
+          MasterSet   \* ClientOption.Sentinel.MasterSet: the name of the master set this client follows
 
 VARIABLES reported,   \* [Kinds -> SUBSET Nodes]  addresses sentinels reported as master / as replica not s_down
           att,        \* [Slots -> attempt]       the running _switchTarget calls
@@ -63,6 +64,12 @@ CoreTypeOK == /\ reported \in [Kinds -> SUBSET Nodes]
 Cls(api, flags) == SentinelClass(Mode, api, flags)
 
 \* ------------------------------------------------------------------------------------------ sentinel reports
+\* One sentinel group monitors several master sets and publishes the events of all of them on the same channels; an
+\* event (or reply) is a report about this client's master only when it carries exactly the client's master-set name.
+\* (A name is whatever value the environment uses for it: a sequence of name parts in Sentinel.tla, so that prefix
+\* relations between names can be expressed, the string itself in SentinelTrace.tla.  The rule is equality in both.)
+Concerns(name) == name = MasterSet
+
 Report(k, as) == /\ reported' = [reported EXCEPT ![k] = @ \cup as]
                  /\ UNCHANGED <<att, cands, okInst, denied, swapping, group, lastSwap>>
 
